@@ -197,3 +197,110 @@ pub fn learn_tablet(
     )]);
     Ok(new_state)
 }
+
+// ------------------------------------------------------------------------------------------------
+// H-CLUSTER (refresh): the production metadata-refresh path over nodes that are *enabled* where the
+// host filter accepts them - still without pools, tasks or sockets (`Node::new` builds pool-less
+// enabled nodes while a `verif_poolless_nodes` guard is held, see `cluster/node.rs`). This is what
+// lets the harness reach the node-reuse decisions of `ClusterState::calculate_new_topology` for
+// enabled nodes (reuse as is / `Node::inherit_with_ip_changed` / re-create).
+
+struct AcceptListed<'a>(&'a [Uuid]);
+impl HostFilter for AcceptListed<'_> {
+    fn accept(&self, peer: &Peer) -> bool {
+        self.0.contains(&peer.host_id)
+    }
+}
+
+fn metadata_of(peers: &[PeerSpec], keyspaces: &[KeyspaceSpec]) -> Metadata {
+    Metadata {
+        peers: peers.iter().map(to_peer).collect(),
+        keyspaces: keyspaces
+            .iter()
+            .map(|k| (k.name.clone(), Ok(to_keyspace(k))))
+            .collect(),
+        cluster_name: Some("verif".to_owned()),
+        client_routes: None,
+    }
+}
+
+fn unused_node_config() -> NodeConfig {
+    let (connectivity_events_sender, _) = tokio::sync::mpsc::unbounded_channel();
+    NodeConfig {
+        pool_config: PoolConfig {
+            connection_config: ConnectionConfig {
+                local_ip_address: None,
+                shard_aware_local_port_range: ShardAwarePortRange::EPHEMERAL_PORT_RANGE,
+                compression: None,
+                tcp_socket_options: TcpSocketOptions::default(),
+                timestamp_generator: None,
+                tls_provider: None,
+                connect_timeout: std::time::Duration::from_secs(5),
+                event_sender: None,
+                default_consistency: Default::default(),
+                authenticator: None,
+                address_translator: None,
+                write_coalescing_delay: None,
+                keepalive_interval: None,
+                keepalive_timeout: None,
+                tablet_sender: None,
+                identity: Default::default(),
+            },
+            pool_size: Default::default(),
+            can_use_shard_aware_port: true,
+            reconnect_policy: Arc::new(ExponentialReconnectPolicy::new()),
+        },
+        used_keyspace: None,
+        connectivity_events_sender,
+        metrics: Metrics::new().into(),
+    }
+}
+
+/// The production `ClusterState::new` with a host filter that accepts exactly `accepted`.
+/// Accepted peers become enabled (pool-less) nodes, the others disabled nodes.
+pub async fn cluster_state_filtered(
+    peers: &[PeerSpec],
+    keyspaces: &[KeyspaceSpec],
+    accepted: &[Uuid],
+) -> ClusterState {
+    let _poolless = crate::cluster::node::verif_poolless_nodes();
+    ClusterState::new(
+        metadata_of(peers, keyspaces),
+        &unused_node_config(),
+        Some(&AcceptListed(accepted)),
+    )
+    .await
+}
+
+/// Full metadata refresh: the production `ClusterState::new_updated` (what the metadata worker
+/// applies after a full fetch) from `old` with the given peers, schema and host filter.
+pub async fn refresh_full(
+    old: &ClusterState,
+    peers: &[PeerSpec],
+    keyspaces: &[KeyspaceSpec],
+    accepted: &[Uuid],
+) -> ClusterState {
+    let _poolless = crate::cluster::node::verif_poolless_nodes();
+    old.new_updated(
+        metadata_of(peers, keyspaces),
+        &unused_node_config(),
+        Some(&AcceptListed(accepted)),
+    )
+    .await
+}
+
+/// Topology-only refresh: the production `ClusterState::new_with_updated_topology` (partial
+/// fetch; the schema of `old` is reused).
+pub async fn refresh_topology(
+    old: &ClusterState,
+    peers: &[PeerSpec],
+    accepted: &[Uuid],
+) -> ClusterState {
+    let _poolless = crate::cluster::node::verif_poolless_nodes();
+    old.new_with_updated_topology(
+        peers.iter().map(to_peer).collect(),
+        &unused_node_config(),
+        Some(&AcceptListed(accepted)),
+    )
+    .await
+}
